@@ -29,7 +29,7 @@ RULE = ("seeded histories of 3-8 fit / transform / fit_transform calls (landscap
         "landscaper: random subset of {start, stop} user-fixed, hom_deg 0/1, flatten on/off, some fits on malformed "
         "input (missing degree, empty diagram); imager: constructor ranges / pixel sizes incl. inexact quotients, "
         "skew on/off, single diagram or list, transform with n_jobs in {1, 2} on 3-6 diagrams of pairwise different sizes, "
-        "and (class imager-degenerate) later fits on collections with zero extent on an "
+        "collections in which the same ndarray object occurs at two or more positions, and (class imager-degenerate) later fits on collections with zero extent on an "
         "axis: all births equal / all persistences equal / a single point / one-point diagrams; a case is non-trivial when it contains >= 2 successful fits "
         "(fit or fit_transform) on different data and, for the landscaper, at least one grid end is not user-fixed; "
         "class multi-*: two or three live estimators in one process with interleaved calls (all fitted on fold A, "
@@ -167,6 +167,13 @@ def _imager_case(rng):
                         "n_jobs": 2 if rng.random() < 0.08 else 1})
             continue
         d = _idgms(rng, ps)
+        if rng.random() < 0.3:
+            # the SAME ndarray object at two or more positions (resampling with replacement, [d] * k)
+            same = [rng.randrange(len(d)) for _ in range(rng.randint(2, 5))]
+            same[rng.randrange(1, len(same))] = same[0]
+            ops.append({"op": k, "dgms": [d[g] for g in same], "same": same,
+                        "skew": True if rng.random() < 0.8 else skew, "single": False})
+            continue
         ops.append({"op": k, "dgms": d, "skew": skew, "single": len(d) == 1 and rng.random() < 0.6})
     if degenerate and not any("deg" in o and o["op"] != "transform" for o in ops):
         skew = rng.random() < 0.6
@@ -355,6 +362,9 @@ def _i_runner(c):
 
     def step(o):
         arrs = [np.array(d, dtype=float).reshape(-1, 2) for d in o["dgms"]]
+        if "same" in o:                 # positions with the same group id hold the same array OBJECT
+            first = {}
+            arrs = [first.setdefault(g, a) for g, a in zip(o["same"], arrs)]
         before = [a.copy() for a in arrs]
         arg = arrs[0] if o["single"] else arrs
         skew = o["skew"]
@@ -378,6 +388,7 @@ def _i_runner(c):
                 q.fit(arg, skew=skew)
                 return imgs(q.transform(arg, skew=skew))
             rec["ref"] = _try(ref)
+            rec["each"] = _try(lambda: [_arr(p.transform(a, skew=skew)) for a in arrs])
         if o["op"] != "transform":
             fresh = PersistenceImager(pixel_size=ct["ps"])       # default ranges: a different past
             if o["op"] == "fit":
@@ -539,8 +550,12 @@ def _pred_imager(c, o):
                     return False, "fit_transform: %s: fit_transform(X) differs from fit(X); transform(X) on a copy" % where
                 if not _same(rec, rec["fresh"]):
                     return False, "forgets: %s: fit_transform(X) differs from a fresh imager's" % where
-                if len(rec["ret"]) != n:
-                    return False, "elementwise: %s: %d images for %d diagrams" % (where, len(rec["ret"]), n)
+                if "error" in rec["each"] or len(rec["ret"]) != n:
+                    return False, "elementwise: %s: %d images for %d diagrams" % (where, len(rec.get("ret", [])), n)
+                for i in range(n):
+                    if not _eq_nan(rec["ret"][i], rec["each"]["ret"][i]):
+                        return False, ("elementwise: %s: image %d differs from transforming diagram %d alone on the "
+                                       "fitted imager" % (where, i, i))
         for im in rec.get("ret") or []:
             if im["shape"] != rec["snap"]["res"]:
                 return False, "shape: %s: image shape %s, resolution %s" % (where, im["shape"], rec["snap"]["res"])
@@ -693,6 +708,8 @@ def shrink_candidates(c):
         yield d
     key = "X" if c.get("what", c["kind"]) == "landscaper" else "dgms"
     for k, o in enumerate(c["ops"]):
+        if "same" in o:
+            continue                    # aliased positions must keep equal values
         for i, dg in enumerate(o[key]):
             if len(dg) > 1:
                 for j in range(len(dg)):
